@@ -9,14 +9,12 @@ TRUSTED_BASE = [
 
 HOOK_COMMITS = ["abe0821"]
 
-PROPS = {
-    "C01": {
-        "level": "proof",
-        "text": "Kernel-checked theorems: for every SMF value in the stated domain the reader model applied to the writer model's bytes returns the written content (both running-status modes); the models are executable and compared with smf.WriteTo/ReadFrom on generated API histories on every run, and the round trip is also evaluated directly on the implementation.",
-        "note": "Trusted: Lean kernel; hand-written model tied to the code only differentially (generators bound what is seen); Go slice/append/bytes.Buffer/binary semantics as modelled; domain guards of DESIGN §8.",
-        "assumptions": [
-            "domain of the theorems: 1..65535 tracks, well-formed channel/meta(not end-of-track)/sysex messages, deltas < 2^32 (DESIGN §8)",
-            "Go slices/append/bytes.Buffer/encoding/binary behave as modelled (validated differentially)",
-        ],
-    },
-}
+import glob, json, os
+
+# one file per claimed property: lib/props/<Cxx>.json with keys
+#   level, text (level_claimed.text), note (level_note), technique (optional), assumptions [..], trusted [..] (optional),
+#   aux_builds [{"dir": "harness_x", "name": "X"}] (optional extra Go binaries, path handed to the harness in $VERIF_AUX_X),
+#   unclaimed: "<reason>" (optional: keeps the property under not_applicable)
+PROPS = {}
+for _f in sorted(glob.glob(os.path.join(os.path.dirname(os.path.abspath(__file__)), "props", "*.json"))):
+    PROPS[os.path.basename(_f)[:-5]] = json.load(open(_f))
